@@ -292,6 +292,15 @@ class World:
         self.probes = int(kv(w, 'probes', '1024'))
         ns = kv(w, 'ns', '-')
         self.nslist = [] if ns == '-' else ns.split(',')
+        # the remote host's /etc/resolv.conf: given as rc=<hex>, else plain lines for the ns= list.
+        # The REAL helpers.resolvconf_nameservers parses it; `nslist` (what the oracle expects the
+        # system name servers to be) is read off the text by resolv_conf_spec, per resolv.conf(5).
+        rc = kv(w, 'rc')
+        if rc is not None:
+            self.rc_text = unhex(rc)
+            self.nslist = resolv_conf_spec(self.rc_text)
+        else:
+            self.rc_text = ''.join('nameserver %s\n' % ip for ip in self.nslist).encode('ascii')
         tons = kv(w, 'tons', '-')
         self.to_ns = None if tons == '-' else tons
         self.gen = None
@@ -371,7 +380,7 @@ class World:
             maxch=ssnet.MAX_CHANNEL, ctime=client.time, stime=server.time, sio=server.io,
             ssocket=server.socket, tsocket=tproxy.socket, dnsproxy=server.DnsProxy,
             udpproxy=server.UdpProxy, grn=server.get_random_nameserver,
-            rcn=helpers.resolvconf_nameservers, verbose=helpers.verbose,
+            verbose=helpers.verbose,
             stdout=sys.stdout, stderr=sys.stderr, rstate=random.getstate(),
             dnsreqs=dict(client.dnsreqs), udp=dict(client.udp_by_src))
         self.real_runonce = ssnet.runonce
@@ -399,8 +408,12 @@ class World:
             def fake_select(r, w, x, timeout=None):
                 return [o for o in r if o in world.ready], [], []
             ssnet.select = ModShim(ssnet.select, select=fake_select)
-            helpers.resolvconf_nameservers = lambda systemd_resolved=False: [
-                (socket.AF_INET6 if ':' in ip else socket.AF_INET, ip) for ip in world.nslist]
+            def fake_open(path, *a, **k):
+                # helpers.resolvconf_nameservers does `open('/etc/resolv.conf')` (text mode)
+                if path == '/etc/resolv.conf':
+                    return io.TextIOWrapper(io.BytesIO(world.rc_text), encoding='latin-1')
+                raise FileNotFoundError(errno.ENOENT, os.strerror(errno.ENOENT), path)
+            helpers.open = fake_open          # module global shadows the builtin inside helpers only
             real_grn = helpers.get_random_nameserver
 
             def rec_grn():
@@ -472,7 +485,7 @@ class World:
             server.DnsProxy = saved['dnsproxy']
             server.UdpProxy = saved['udpproxy']
             server.get_random_nameserver = saved['grn']
-            helpers.resolvconf_nameservers = saved['rcn']
+            helpers.__dict__.pop('open', None)
             helpers.verbose = saved['verbose']
             sys.stdout = saved['stdout']
             sys.stderr = saved['stderr']
@@ -1302,10 +1315,50 @@ class ScenarioGen:
         return 'caccept'
 
 
+def resolv_conf_spec(text):
+    """The system name servers named by a resolv.conf, per resolv.conf(5) / the libc parser: a line
+    that begins with the keyword `nameserver` followed by blanks names the address that follows;
+    anything after the address is ignored; `#`/`;` lines and other keywords name nothing."""
+    out = []
+    for line in text.decode('latin-1').replace('\r\n', '\n').replace('\r', '\n').split('\n'):
+        if line.startswith('nameserver') and line[10:11] in (' ', '\t'):
+            rest = line[10:].split()
+            if rest:
+                out.append(rest[0])
+    return out
+
+
+NS_FILLER = ['search corp.example', 'options edns0 ndots:2', '# nameserver 192.0.2.1', '#nameserver 192.0.2.2',
+             '; nameserver 192.0.2.3', 'nameserver', 'nameserverx 192.0.2.4', 'domain example.org', '',
+             'sortlist 130.155.160.0/255.255.240.0', '# Generated by NetworkManager']
+
+
+def render_resolv_conf(rng, nslist, fancy=True):
+    """resolv.conf text for the given servers: separators, trailing tokens/comments, CRLF, filler lines."""
+    lines = []
+    for ip in nslist:
+        if fancy and rng.random() < 0.5:
+            lines.append(rng.choice(NS_FILLER))
+        sep = rng.choice([' ', ' ', '\t', '   ', ' \t ', '\t\t']) if fancy else ' '
+        tail = rng.choice(['', '', ' # site resolver', '\t# added by dhclient', ' ;x', '   ', '\t', ' extra tokens here',
+                           ' #']) if fancy else ''
+        lines.append('nameserver' + sep + ip + tail)
+    if fancy and rng.random() < 0.6:
+        lines.insert(rng.randrange(0, len(lines) + 1), rng.choice(NS_FILLER))
+    if fancy and rng.random() < 0.4:
+        lines.append(rng.choice(NS_FILLER))
+    eol = '\r\n' if (fancy and rng.random() < 0.15) else '\n'
+    text = eol.join(lines) + (eol if (lines and rng.random() < 0.85) else '')
+    return text.encode('ascii')
+
+
 def rand_cfg(rng, focus, small=False):
     method = 'tproxy' if (focus == 'udp' or rng.random() < 0.6) else 'base'
     mx = rng.choice([2, 3, 4, 6]) if small else 65535
     ns = rng.choice(NSLISTS)
+    if focus == 'dns':
+        rc = render_resolv_conf(rng, ns, fancy=rng.random() < 0.75)
+        return 'cfg method=%s max=%d probes=1024 rc=%s tons=%s' % (method, mx, hexb(rc), rng.choice(TONS))
     return 'cfg method=%s max=%d probes=1024 ns=%s tons=%s' % (method, mx, join_or(',', ns), rng.choice(TONS))
 
 
@@ -1320,6 +1373,20 @@ def corpus(focus):
                        'cinject 1.%d.beef' % 16907, 'cdeliver']))
         cases.append(('dns-base-method', 'cfg method=base max=65535 probes=1024 ns=- tons=10.9.8.7@0',
                       ['cdns 10 fe80::1|4000|0|3 - 00', 'sround 1', 'ssock 0 d 10.9.8.7|53 0102', 'cdeliver']))
+        # the remote resolv.conf in the spellings the libc resolver accepts (resolv.conf(5))
+        for name, text in [
+                ('plain', 'search corp.example\nnameserver 10.11.12.13\noptions edns0\n'),
+                ('tab', '# generated\nnameserver\t10.11.12.13\n'),
+                ('spaces', 'nameserver    10.11.12.13   \n'),
+                ('trailing-comment', '# Generated by provisioning\nnameserver 10.11.12.13   # site resolver\n'),
+                ('trailing-tokens', 'nameserver 10.11.12.13 extra tokens\nnameserver 2001:db8::53\t; second\n'),
+                ('crlf', 'nameserver 10.11.12.13 #x\r\nnameserver 10.11.12.14\r\n'),
+                ('no-final-newline', 'nameserver\t \t10.11.12.13 # c'),
+                ('not-servers', '#nameserver 192.0.2.1\n# nameserver 192.0.2.2\nnameserver\nnameserverx 192.0.2.3\n'
+                                '; nameserver 192.0.2.4\n')]:
+            cases.append(('resolv-conf-' + name,
+                          'cfg method=tproxy max=65535 probes=1024 rc=%s tons=-' % hexb(text.encode('ascii')),
+                          [q % '01', q % '02', 'sround 2', 'ssock 0 d 10.11.12.13|53 aa', 'cdeliver']))
         for d in (T - 1, T, T + 1):
             cases.append(('dns-expiry-%d' % d, 'cfg method=tproxy max=65535 probes=1024 ns=1.1.1.1 tons=-',
                           [q % '01', 'tick 5', q % '02', 'tick %d' % (d - 5), 'caccept', 'tick 5', 'caccept',
